@@ -762,6 +762,7 @@ def _bytes_find(it, self, args, kw):
     # r is SOME occurrence (or -1): a superset of what find returns (the first one), which is sound for universal postconditions
     # and keeps str.indexof (first-occurrence minimality) away from the solver.
     n, m = z3.Length(self.e), z3.Length(sub.e)
+    it.assumptions_used.add("bytes.find: the result is SOME occurrence of the pattern or -1 (a superset of the first occurrence; -1 only excluded by a proved occurrence); a bytes object is shorter than 2**63")
     r = z3.Int(it.fresh_name("find"))
     it.assume(z3.Or(r == -1, z3.And(r >= 0, r + m <= n, z3.Extract(self.e, r, m) == sub.e)))
     it.assume(z3.And(r >= -1, r <= n, n < 2 ** 63))  # a CPython bytes object is shorter than sys.maxsize
